@@ -49,7 +49,8 @@ with elem :=
 | EBool (b : bool) | EInt (z : Z) | EUint (z : Z) | EFloat (f : fv)
 | EStr (s : bytes) | EBStr (s : bytes) | ECplx (re im : fv) (im_ge0 : bool)
 | EDur (d : dv) | ETime (t : tv) | ERefl (r : rv)
-| EObj (m : objm) | EArr (a : arrm).
+| EObj (m : objm) | EArr (a : arrm)
+| EFail (msg : bytes).   (* an element call that appends nothing and fails in every encoder: a panicking String() inside zap.Stringers *)
 
 (* sub-encoders of EncoderConfig, as far as the properties quantify over them:
    nil, a user encoder that appends nothing, or a built-in that appends once *)
